@@ -18,7 +18,7 @@ LEVEL = "exploration"
 RULE = (
     "cases = fault histories per transport over {send request of 1 / 1024 / 1025 bytes (1-2 frames), deliver next genuine"
     " message, replay an earlier genuine message, deliver a message with a future counter, deliver a corrupted message,"
-    " cancel the in-flight request, time out; CoAP additionally: accessory counter skipped ahead by 1-3 / 7, NOT_FOUND reply,"
+    " cancel the in-flight request (CoAP: caller cancellation with the answer withheld or lost), time out; CoAP additionally: accessory counter skipped ahead by 1-3 / 7, NOT_FOUND reply,"
     " genuine / replayed / skipped / corrupted EVENT}: ALL histories of the bounded depth per transport, seeded random"
     " histories of depth 8-40, and (BLE) a cancellation sweep over every loop iteration of a request. After every history"
     " the AEAD log is checked per key. Distinct by (transport, history); non-trivial = history contains a fault action."
@@ -34,7 +34,7 @@ SHARDS = {"quick": 16, "thorough": 16}
 TIMEOUT = {"quick": 900, "thorough": 7200}
 MIN_CASES = {"quick": 3000, "thorough": 25000}
 REQUIRED_COUNTERS = ["ip_encrypts_logged", "ip_accepts_logged", "ip_rejects_logged", "ble_encrypts_logged", "ble_accepts_logged", "ble_rejects_logged",
-                     "coap_encrypts_logged", "coap_accepts_logged", "coap_rejects_logged", "coap_event_accepts_logged", "sessions_rekeyed", "ble_cancel_sweep_points"]
+                     "coap_encrypts_logged", "coap_accepts_logged", "coap_rejects_logged", "coap_event_accepts_logged", "sessions_rekeyed", "ble_cancel_sweep_points", "coap_requests_cancelled_in_flight"]
 
 
 def report(ctx, transport, history, findings, replay, classify=None) -> None:
@@ -281,7 +281,7 @@ async def ble_history(ctx, history: str, key, cancel_at=None) -> None:
 # CoAP
 # ---------------------------------------------------------------------------------------------
 
-COAP_ALPHABET = "GRSFCNTegsc"
+COAP_ALPHABET = "GRSFCNTXYegsc"
 
 
 class _Resp:
@@ -333,6 +333,9 @@ async def coap_history(ctx, history: str, key) -> None:
             st.setdefault("acc_decrypt_errors", 0)
             st["acc_decrypt_errors"] += 1
         if b == "T":
+            await asyncio.sleep(3600)
+        if b == "L":
+            produce_response()  # answered, but the answer never reaches the (cancelled) caller
             await asyncio.sleep(3600)
         if b == "G":
             return _Resp(Code.CHANGED, produce_response())
@@ -392,7 +395,7 @@ async def coap_history(ctx, history: str, key) -> None:
     conn.info = Info()
     resource = cmod.EventResource(conn)
     replay = {"t": "coap", "history": history, "key": key}
-    ctx.case("coap", history, nontrivial=any(c in history for c in "RSFCNTgsc"), sample={"transport": "coap", "history": history}, kind="coap-rand" if len(history) > 6 else "coap")
+    ctx.case("coap", history, nontrivial=any(c in history for c in "RSFCNTXYZgsc"), sample={"transport": "coap", "history": history}, kind="coap-rand" if len(history) > 6 else "coap")
     ended = False
     try:
         for a in history:
@@ -405,6 +408,19 @@ async def coap_history(ctx, history: str, key) -> None:
                     await asyncio.wait_for(enc.post_bytes(b"\x00\x03\x00\x0a\x00\x00\x00"), 120)
                 except Exception:  # noqa: BLE001 - the monitor judges
                     pass
+            elif a in "XY":
+                # the CALLER cancels the request while it is in flight (X: the accessory never answers it, Y: its answer is
+                # lost); the session stays up, so the next request must not reuse the nonce
+                if enc.coap_ctx is None:
+                    ended = True
+                    break
+                behaviour["next"] = "T" if a == "X" else "L"
+                t = asyncio.ensure_future(enc.post_bytes(b"\x00\x03\x00\x0a\x00\x00\x00"))
+                for _ in range(rng.randint(2, 6)):
+                    await asyncio.sleep(0)
+                t.cancel()
+                await asyncio.gather(t, return_exceptions=True)
+                ctx.count("coap_requests_cancelled_in_flight")
             else:
                 from aiocoap import Message
 
@@ -508,7 +524,7 @@ def run(ctx) -> None:
             idx += 1
             if ctx.mine(idx):
                 await coap_history(ctx, h, ("directed", h))
-        ctx.exhaustive_parts[f"all histories to depth {d_ip} (IP, 9 actions), {d_ble} (BLE, 7), {d_coap} (CoAP, 11)"] = True
+        ctx.exhaustive_parts[f"all histories to depth {d_ip} (IP, 9 actions), {d_ble} (BLE, 7), {d_coap} (CoAP, 13)"] = True
         # BLE cancellation sweep: cancel at every loop iteration of a request (after 0-2 earlier requests)
         for pre in ("", "r", "wr"):
             for k in range(1, ctx.pick(60, 120)):
@@ -525,7 +541,7 @@ def run(ctx) -> None:
             elif t == 1:
                 await ble_history(ctx, "".join(rng.choice("rrrwwPUKct") for _ in range(min(n, 16))), ("r", ctx.shard, k))
             else:
-                await coap_history(ctx, "".join(rng.choice("GGGGRSFCNeeegsc") for _ in range(n)), ("r", ctx.shard, k))
+                await coap_history(ctx, "".join(rng.choice("GGGGGRSFCNXYZeeegsc") for _ in range(n)), ("r", ctx.shard, k))
 
     vloop.run(main())
 
